@@ -143,3 +143,53 @@ func VerifC13RaceFirstJoins() {
 		zzverif.Assert(l.closed >= 1, "C13.racefirst.listeners-closed-at-the-end")
 	}
 }
+
+// VerifC13HTTPRepeatedName: a second join under a name that is already a live member of an http
+// group (a same-name registration that slipped past the name check of another session) is refused
+// and leaves the group as it was: the live member keeps serving, with ITS connection factory, also
+// after the refused registration's clean-up; the rotation contains each live member once.
+func VerifC13HTTPRepeatedName() {
+	routers := vhost.NewRouters()
+	ctl := NewHTTPGroupController(routers)
+	var used []string
+	mk := func(tag string) vhost.RouteConfig {
+		return vhost.RouteConfig{Domain: "a.com", Location: "/", CreateConnFn: func(string) (net.Conn, error) {
+			used = append(used, tag)
+			return nil, errC13
+		}}
+	}
+	zzverif.Assume(ctl.Register("p1", "g", "k", mk("session-A")) == nil)
+	second := zzverif.Bool("anotherMemberToo")
+	if second {
+		zzverif.Assume(ctl.Register("p2", "g", "k", mk("session-C")) == nil)
+	}
+	err := ctl.Register("p1", "g", "k", mk("session-B"))
+	zzverif.Assert(err != nil, "C13.repeat.second-join-under-a-live-member's-name-is-refused")
+	g := ctl.groups["g"]
+	zzverif.Assert(g != nil, "C13.repeat.group-still-registered")
+	if g == nil {
+		return
+	}
+	n := 1
+	if second {
+		n = 2
+	}
+	zzverif.Assert(len(g.pxyNames) == n && len(g.createFuncs) == n, "C13.repeat.refused-join-leaves-the-membership-unchanged")
+	for i := 0; i < 2*n; i++ {
+		_, _ = g.createConn("9.9.9.9:1")
+	}
+	a, b, c := 0, 0, 0
+	for _, t := range used {
+		switch t {
+		case "session-A":
+			a++
+		case "session-B":
+			b++
+		case "session-C":
+			c++
+		}
+	}
+	zzverif.Assert(b == 0, "C13.repeat.refused-registration-serves-nothing")
+	zzverif.Assert(a == 2 && (!second || c == 2), "C13.repeat.live-members-each-get-their-share-through-their-own-factory")
+	zzverif.Reach("C13.repeat.done")
+}
